@@ -188,6 +188,11 @@ def printCase (s : List Char) (neg : Bool) (W : Nat) (ip fp : List Char) (origEx
 def printNum (s : List Char) (neg : Bool) (W : Nat) (m : Mant) : List Char :=
   printCase s neg W m.ip m.fp m.e (sigDigits m.ip m.fp).1 (sigDigits m.ip m.fp).2
 
+/-- `origExp < MinInt+len(num)+1 || MaxInt-len(num)-1 < origExp`: the precision branch moves the exponent by
+    up to `len(num)`; with a precision such a number is returned unchanged -/
+def expNearEdge (e : Int) (len : Nat) : Bool :=
+  decide (e < -9223372036854775808 + (len : Int) + 1) || decide (9223372036854775807 - (len : Int) - 1 < e)
+
 /-- everything after the exponent has been parsed -/
 def numberCore (s : List Char) (neg signed : Bool) (mant : List Char) (origExp : Int) (prec : Int) :
     List Char :=
@@ -199,6 +204,7 @@ def numberCore (s : List Char) (neg signed : Bool) (mant : List Char) (origExp :
   let fp := dropTrail '0' (sp.2.getD [])
   if hasDot && fp.isEmpty && ip.isEmpty then ['0'] else
   if !hasDot && ip == ['0'] then ['0'] else
+  if decide (0 < prec) && expNearEdge origExp s.length then s else
   let m0 : Mant := { ip := ip, fp := fp, e := origExp }
   let m := if 0 < prec then roundP m0 prec.toNat else m0
   printNum s neg (s.length - ((if signed then 1 else 0) + dropped)) m
